@@ -37,5 +37,19 @@ RECURSIVE AddArchives(_, _, _)
 AddArchives(acc, as, ext) == IF as = <<>> THEN acc ELSE AddArchives(AddMembers(acc, Head(as).members, ext), Tail(as), ext)
 LooseOfType(L, ext) == SelectSeq([i \in 1..Len(L.loose) |-> L.loose[i].name], LAMBDA n : Ext(n) = ext)
 \* loose part is compared as a multiset by the harness (directory order is not specified)
+\* pattern listing: loose regular files of the directory (the archive files themselves included) whose *file name* matches,
+\* then every matching member of every loaded archive (no de-duplication).  Patterns are case-blind and structured, so that
+\* the specification can evaluate them: the harness turns [kind, text] into the regular expression ^text, text$, text or ^text$.
+IsPrefixOf(t, m) == Len(t) <= Len(m) /\ SubSeq(m, 1, Len(t)) = t
+IsSuffixOf(t, m) == Len(t) <= Len(m) /\ SubSeq(m, Len(m) - Len(t) + 1, Len(m)) = t
+Occurs(t, m) == \E i \in 1..(Len(m) - Len(t) + 1) : SubSeq(m, i, i + Len(t) - 1) = t
+Matches(p, n) == LET t == FoldS(p.text)  m == FoldS(n) IN
+                 CASE p.kind = "prefix" -> IsPrefixOf(t, m) [] p.kind = "suffix" -> IsSuffixOf(t, m)
+                   [] p.kind = "contains" -> Occurs(t, m) \/ t = <<>> [] OTHER -> t = m
+LooseFilesOf(L) == [i \in 1..Len(L.loose) |-> L.loose[i].name] \o [i \in 1..Len(L.archives) |-> L.archives[i].file]
+RECURSIVE MembersMatching(_, _)
+MembersMatching(as, p) == IF as = <<>> THEN <<>>
+                          ELSE SelectSeq([j \in 1..Len(Head(as).members) |-> Head(as).members[j].name], LAMBDA n : Matches(p, n)) \o MembersMatching(Tail(as), p)
+ListByPattern(L, p, useArchives) == SelectSeq(LooseFilesOf(L), LAMBDA n : Matches(p, n)) \o (IF useArchives THEN MembersMatching(L.archives, p) ELSE <<>>)
 ListOfType(L, ext, useArchives) == IF useArchives THEN AddArchives(LooseOfType(L, ext), L.archives, ext) ELSE LooseOfType(L, ext)
 ====
